@@ -324,8 +324,11 @@ proof fn lemma_unchanged(a: Seq<TypeNode>, b: Seq<TypeNode>)
     ensures
         same_graph(a, b), tview(b) == tview(a), ids_closed(a) ==> ids_closed(b), sizes_inv(a) ==> sizes_inv(b),
         forall|o: Seq<TypeNode>| #[trigger] same_graph(o, a) ==> same_graph(o, b),
+        merges_from(a, b),
 {
     assert(same_graph(a, b));
+    assert(merges_only(a, b)) by { assert forall|i: int, j: int| 0 <= i < a.len() && 0 <= j < a.len() && rep0(a, i) == rep0(a, j) implies #[trigger] rep0(b, i) == #[trigger] rep0(b, j) by { assert(rep0(b, i) == rep0(a, i)); assert(rep0(b, j) == rep0(a, j)); } }
+    lemma_merges_from(a, b);
     lemma_same_graph(a, b);
     lemma_same_roots(a, b);
     assert forall|o: Seq<TypeNode>| #[trigger] same_graph(o, a) implies same_graph(o, b) by {
@@ -333,6 +336,40 @@ proof fn lemma_unchanged(a: Seq<TypeNode>, b: Seq<TypeNode>)
     }
 }
 proof fn lemma_same_graph_refl(a: Seq<TypeNode>) ensures same_graph(a, a) {}
+proof fn lemma_unchanged_from_same_graph(a: Seq<TypeNode>, b: Seq<TypeNode>)
+    requires same_graph(a, b),
+    ensures merges_from(a, b),
+{
+    assert(merges_only(a, b)) by { assert forall|i: int, j: int| 0 <= i < a.len() && 0 <= j < a.len() && rep0(a, i) == rep0(a, j) implies #[trigger] rep0(b, i) == #[trigger] rep0(b, j) by { assert(rep0(b, i) == rep0(a, i)); assert(rep0(b, j) == rep0(a, j)); } }
+    lemma_merges_from(a, b);
+}
+
+/// classes only merge: ids that were in one class stay in one class (the graph may also grow)
+spec fn merges_only(a: Seq<TypeNode>, b: Seq<TypeNode>) -> bool {
+    &&& a.len() <= b.len()
+    &&& forall|i: int, j: int| 0 <= i < a.len() && 0 <= j < a.len() && rep0(a, i) == rep0(a, j) ==> #[trigger] rep0(b, i) == #[trigger] rep0(b, j)
+}
+/// the chaining form used in postconditions: whatever had only merged up to the old state has only
+/// merged up to the new state
+spec fn merges_from(a: Seq<TypeNode>, b: Seq<TypeNode>) -> bool {
+    forall|o: Seq<TypeNode>| #[trigger] merges_only(o, a) ==> merges_only(o, b)
+}
+proof fn lemma_merges_refl(a: Seq<TypeNode>) ensures merges_only(a, a) {}
+proof fn lemma_merges_trans(a: Seq<TypeNode>, b: Seq<TypeNode>, c: Seq<TypeNode>)
+    requires merges_only(a, b), merges_only(b, c),
+    ensures merges_only(a, c),
+{
+    assert forall|i: int, j: int| 0 <= i < a.len() && 0 <= j < a.len() && rep0(a, i) == rep0(a, j) implies #[trigger] rep0(c, i) == #[trigger] rep0(c, j) by {
+        assert(rep0(b, i) == rep0(b, j));
+    }
+}
+/// a step that keeps every old representative relation makes merges_from hold
+proof fn lemma_merges_from(a: Seq<TypeNode>, b: Seq<TypeNode>)
+    requires merges_only(a, b),
+    ensures merges_from(a, b),
+{
+    assert forall|o: Seq<TypeNode>| #[trigger] merges_only(o, a) implies merges_only(o, b) by { lemma_merges_trans(o, a, b); }
+}
 proof fn lemma_view_members(ts: Seq<TypeNode>, a: TyID)
     requires wf_forest(ts), ids_closed(ts), (a.0 as int) < ts.len(),
     ensures ids_in_range(tview(ts)[a.0 as int], ts.len() as int), tview(ts)[a.0 as int] == ty_of(ts, a),
@@ -863,7 +900,7 @@ impl TypeChecker {
     spec fn inv2(&self) -> bool { self.inv() && self.vars_valid() }
     /// the frame every checker function obeys: the graph only grows, the variable table is fixed
     spec fn grows(&self, old: &TypeChecker) -> bool {
-        self.types@.len() >= old.types@.len() && self.variables == old.variables
+        self.types@.len() >= old.types@.len() && self.variables == old.variables && merges_from(old.types@, self.types@)
     }
 
 //@ fn sylt-compiler/src/typechecker.rs push_type
@@ -880,11 +917,12 @@ impl TypeChecker {
             r.0 == old(self).types@.len(), //# C02 push_type.returns_fresh_id
             final(self).types@.len() == old(self).types@.len() + 1, //# C02,C07 push_type.spec.aux3
             push_frame(old(self).types@, final(self).types@, ty), //# C02 push_type.appends_one_singleton_class_and_touches_nothing_else
+            merges_from(old(self).types@, final(self).types@), //# C02 push_type.classes_only_merge
             final(self).variables == old(self).variables, //# C07 push_type.spec.aux4
 //@   endspec
 //@   ghost after
 //@|         });
-            proof { lemma_push(old(self).types@, self.types@); reveal(push_frame); }
+            proof { lemma_push(old(self).types@, self.types@); reveal(push_frame); lemma_push_merges(old(self).types@, self.types@); }
 //@   endghost
 //@ end
 
@@ -909,6 +947,7 @@ impl TypeChecker {
             same_graph(old(self).types@, final(self).types@), //# C02 find.no_observable_change
             forall|o: Seq<TypeNode>| #[trigger] same_graph(o, old(self).types@) ==> same_graph(o, final(self).types@), //# C02,C07 find.spec.aux4
             tview(final(self).types@) == tview(old(self).types@), //# C02 find.view_unchanged
+            merges_from(old(self).types@, final(self).types@), //# C02 find.classes_only_merge
             final(self).variables == old(self).variables, //# C02 find.frame_variables
             (res.0 as int) < final(self).types.len(), //# C07 find.result_in_range
             final(self).types@[res.0 as int].parent is None, //# C02 find.result_is_root
@@ -984,6 +1023,7 @@ impl TypeChecker {
             same_graph(old(self).types@, final(self).types@), //# C02 find_node.no_observable_change
             forall|o: Seq<TypeNode>| #[trigger] same_graph(o, old(self).types@) ==> same_graph(o, final(self).types@), //# C02,C07 find_node.spec.aux5
             tview(final(self).types@) == tview(old(self).types@), //# C02 find_node.view_unchanged
+            merges_from(old(self).types@, final(self).types@), //# C02 find_node.classes_only_merge
             final(self).variables == old(self).variables, //# C02 find_node.frame_variables
             *r == final(self).types@[rep0(old(self).types@, a.0 as int)], //# C02 find_node.returns_root_node
             r.ty == ty_of(old(self).types@, a), //# C02,C07 find_node.spec.aux6
@@ -1009,6 +1049,7 @@ impl TypeChecker {
             same_graph(old(self).types@, final(self).types@), //# C02 find_type.no_observable_change
             forall|o: Seq<TypeNode>| #[trigger] same_graph(o, old(self).types@) ==> same_graph(o, final(self).types@), //# C02,C07 find_type.spec.aux5
             tview(final(self).types@) == tview(old(self).types@), //# C02 find_type.view_unchanged
+            merges_from(old(self).types@, final(self).types@), //# C02 find_type.classes_only_merge
             final(self).variables == old(self).variables, //# C02 find_type.frame_variables
             r == ty_of(old(self).types@, a), //# C02 find_type.returns_class_type
             r == tview(old(self).types@)[a.0 as int], //# C02,C07 find_type.spec.aux6
@@ -1035,6 +1076,7 @@ impl TypeChecker {
             same_graph(old(self).types@, final(self).types@), //# C02 is_void.no_observable_change
             forall|o: Seq<TypeNode>| #[trigger] same_graph(o, old(self).types@) ==> same_graph(o, final(self).types@), //# C02,C07 is_void.spec.aux6
             tview(final(self).types@) == tview(old(self).types@), //# C02 is_void.view_unchanged
+            merges_from(old(self).types@, final(self).types@), //# C02 is_void.classes_only_merge
             final(self).variables == old(self).variables, //# C02 is_void.frame_variables
             r == (ty_of(old(self).types@, a) is Void), //# C03 is_void.exact
 //@   endspec
@@ -1342,8 +1384,6 @@ impl TypeChecker {
         requires
             old(self).inv(), //# C02 union.pre.inv
             old(self).valid(a), old(self).valid(b), //# C07 union.pre.ids_in_range
-            rep0(old(self).types@, a.0 as int) != rep0(old(self).types@, b.0 as int) ==>
-                old(self).types@[rep0(old(self).types@, a.0 as int)].size + old(self).types@[rep0(old(self).types@, b.0 as int)].size <= usize::MAX, //# C07 union.pre.size_no_overflow
         ensures
             final(self).inv(), //# C02 union.keeps_invariant
             final(self).types.len() == old(self).types.len(), //# C07 union.spec.aux1
@@ -1354,6 +1394,8 @@ impl TypeChecker {
             forall|i: int| 0 <= i < old(self).types.len() && rep0(old(self).types@, i) != rep0(old(self).types@, a.0 as int)
                 && rep0(old(self).types@, i) != rep0(old(self).types@, b.0 as int)
                 ==> #[trigger] cons_of(final(self).types@, i) == cons_of(old(self).types@, i), //# C02,C03 union.other_classes_keep_constraints
+            merges_from(old(self).types@, final(self).types@), //# C02 union.classes_only_merge
+            rep0(final(self).types@, a.0 as int) == rep0(final(self).types@, b.0 as int), //# C02,C03 union.the_two_ids_end_up_in_one_class
             final(self).variables == old(self).variables, //# C07 union.spec.aux2
 //@   endspec
 //@   ghost entry
@@ -1367,6 +1409,9 @@ impl TypeChecker {
         let ghost ra = a; let ghost rb = b;
         proof {
             lemma_union_roots(ts0, ts2, a0.0 as int, b0.0 as int, a, b);
+            lemma_same_roots(ts0, ts2);
+            assert(ts2.len() == self.types.len());
+            if a != b { lemma_rep0_props(ts2, a as int); lemma_rep0_props(ts2, b as int); lemma_two_roots_le_sum(ts2, ts2.len() as int, a as int, b as int); }
             if a == b { lemma_union_noop(ts0, ts2, a0.0 as int, b0.0 as int); }
         }
 //@   endghost
@@ -1511,7 +1556,7 @@ impl TypeChecker {
         hide(wf_forest); hide(ids_closed); hide(TypeChecker::vars_valid);
         hide(e_below); hide(e_nodecl); hide(e_shape); hide(s_below); hide(s_nodecl); hide(s_shape);
         hide(ib_below); hide(ib_nodecl); hide(ib_shape); hide(cb_below); hide(cb_nodecl); hide(cb_shape);
-        hide(e_brk); hide(e_pur); hide(s_brk); hide(s_pur); hide(ib_brk); hide(ib_pur); hide(cb_brk); hide(cb_pur);
+        hide(e_brk); hide(e_pur); hide(s_brk); hide(s_pur); hide(ib_brk); hide(ib_pur); hide(cb_brk); hide(cb_pur); hide(merges_only);
         let ghost n = self.variables@.len() as int; let ghost vs = self.variables@; let ghost il = ctx.inside_loop; let ghost ip = ctx.inside_pure;
         proof { axiom_string_key_order(); lemma_e_ok_children(*expression, n); }
 //@   endghost
@@ -1738,6 +1783,12 @@ impl TypeChecker {
                 assert(rep0(tsf, i) == rep0(ts0, i));
                 assert(tsf[rep0(ts0, i)].constraints == ts0[rep0(ts0, i)].constraints);
             }
+            assert(merges_only(ts0, tsf)) by {
+                assert forall|i: int, j: int| 0 <= i < ts0.len() && 0 <= j < ts0.len() && rep0(ts0, i) == rep0(ts0, j) implies #[trigger] rep0(tsf, i) == #[trigger] rep0(tsf, j) by {
+                    assert(rep0(tsf, i) == rep0(ts0, i)); assert(rep0(tsf, j) == rep0(ts0, j));
+                }
+            }
+            lemma_merges_from(ts0, tsf);
         }
 //@   endghost
 //@ end
@@ -1769,6 +1820,7 @@ impl TypeChecker {
             final(r).parent is None ==> wf_forest(final(self).types@)
                 && forall|i: int| 0 <= i < old(self).types@.len() ==> #[trigger] rep0(final(self).types@, i) == rep0(old(self).types@, i), //# C02 find_node_mut.partition_unchanged_if_parent_untouched
             final(r).parent is None && final(r).size == r.size && sizes_inv(old(self).types@) ==> sizes_inv(final(self).types@), //# C02 find_node_mut.sizes_kept_if_size_untouched
+            final(r).parent is None ==> merges_from(old(self).types@, final(self).types@), //# C02 find_node_mut.classes_only_merge
             final(self).variables == old(self).variables, //# C07 find_node_mut.spec.aux3
 //@   endspec
 //@   ghost entry
@@ -1784,10 +1836,18 @@ impl TypeChecker {
             lemma_same_roots(ts0, mid);
             assert forall|n: TypeNode| n.parent is None implies wf_forest(#[trigger] mid.update(ta as int, n))
                 && (forall|i: int| 0 <= i < ts0.len() ==> #[trigger] rep0(mid.update(ta as int, n), i) == rep0(ts0, i))
-                && (n.size == mid[ta as int].size && sizes_inv(ts0) ==> sizes_inv(mid.update(ta as int, n))) by {
+                && (n.size == mid[ta as int].size && sizes_inv(ts0) ==> sizes_inv(mid.update(ta as int, n)))
+                && merges_from(ts0, mid.update(ta as int, n)) by {
                 let upd = mid.update(ta as int, n);
                 lemma_parents_same(mid, upd);
                 if n.size == mid[ta as int].size && sizes_inv(ts0) { lemma_sum_same(mid, upd, mid.len() as int); }
+                assert(merges_only(ts0, upd)) by {
+                    assert forall|i: int, j: int| 0 <= i < ts0.len() && 0 <= j < ts0.len() && rep0(ts0, i) == rep0(ts0, j) implies #[trigger] rep0(upd, i) == #[trigger] rep0(upd, j) by {
+                        assert(rep0(upd, i) == rep0(mid, i)); assert(rep0(mid, i) == rep0(ts0, i));
+                        assert(rep0(upd, j) == rep0(mid, j)); assert(rep0(mid, j) == rep0(ts0, j));
+                    }
+                }
+                lemma_merges_from(ts0, upd);
                 assert forall|i: int| 0 <= i < ts0.len() implies #[trigger] rep0(upd, i) == rep0(ts0, i) by {
                     assert(rep0(upd, i) == rep0(mid, i));
                     assert(rep0(mid, i) == rep0(ts0, i));
@@ -1827,6 +1887,9 @@ impl TypeChecker {
                 && rep0(old(self).types@, a.0 as int) != rep0(old(self).types@, b.0 as int)
                 && !old(seen)@.contains((TyID(rep0(old(self).types@, a.0 as int) as usize), TyID(rep0(old(self).types@, b.0 as int) as usize)))
                 ==> r is Err, //# C03,C04,C05 sub_unify.clashing_types_rejected
+            r is Ok ==> rep0(final(self).types@, a.0 as int) == rep0(final(self).types@, b.0 as int)
+                || old(seen)@.contains((TyID(rep0(old(self).types@, a.0 as int) as usize), TyID(rep0(old(self).types@, b.0 as int) as usize))), //# C02,C03 sub_unify.ok_means_one_class_or_already_pending
+            r is Ok ==> rep0(final(self).types@, r->Ok_0.0 as int) == rep0(final(self).types@, a.0 as int), //# C02 sub_unify.returns_a_member_of_the_class
 //@   endspec
 //@   ghost entry
         let ghost ts0 = self.types@; let ghost a0 = a; let ghost b0 = b;
@@ -1838,7 +1901,7 @@ impl TypeChecker {
 //@   loop 1 binder it
                     invariant
                         xs1.len() == ys1.len(), it.seq().len() == xs1.len(), //# C03,C05 sub_unify.loop1.tuple_lengths_match
-                        self.inv2(), self.grows(old(self)), self.types@.len() >= n1, //# C02,C07 sub_unify.loop1.aux1
+                        self.inv2(), self.grows(old(self)), self.types@.len() >= n1, merges_only(ts1, self.types@), //# C02,C07 sub_unify.loop1.aux1
                         vstd::std_specs::btree::key_obeys_cmp_spec::<(TyID, TyID)>(), //# C02,C07 sub_unify.loop1.aux2
                         forall|i: int| 0 <= i < xs1.len() ==> *(#[trigger] it.seq()[i]).0 == xs1[i] && *it.seq()[i].1 == ys1[i], //# C07 sub_unify.loop1.aux3
                         forall|k: int| 0 <= k < xs1.len() ==> (#[trigger] xs1[k]).0 < n1 && (#[trigger] ys1[k]).0 < n1, //# C07 sub_unify.loop1.aux4
@@ -1849,7 +1912,7 @@ impl TypeChecker {
 //@   loop 2 binder it
                     invariant
                         xs2.len() == ys2.len(), it.seq().len() == xs2.len(), //# C03 sub_unify.loop2.arities_match
-                        self.inv2(), self.grows(old(self)), self.types@.len() >= n2, //# C02,C07 sub_unify.loop2.aux1
+                        self.inv2(), self.grows(old(self)), self.types@.len() >= n2, merges_only(ts1, self.types@), //# C02,C07 sub_unify.loop2.aux1
                         vstd::std_specs::btree::key_obeys_cmp_spec::<(TyID, TyID)>(), //# C02,C07 sub_unify.loop2.aux2
                         forall|i: int| 0 <= i < xs2.len() ==> *(#[trigger] it.seq()[i]).0 == xs2[i] && *it.seq()[i].1 == ys2[i], //# C07 sub_unify.loop2.aux3
                         forall|k: int| 0 <= k < xs2.len() ==> (#[trigger] xs2[k]).0 < n2 && (#[trigger] ys2[k]).0 < n2, //# C07 sub_unify.loop2.aux4
@@ -1859,7 +1922,7 @@ impl TypeChecker {
 //@   endghost
 //@   loop 4 binder it
                     invariant
-                        self.inv2(), self.grows(old(self)), self.types@.len() >= n4, //# C02,C07 sub_unify.loop4.aux1
+                        self.inv2(), self.grows(old(self)), self.types@.len() >= n4, merges_only(ts1, self.types@), //# C02,C07 sub_unify.loop4.aux1
                         vstd::std_specs::btree::key_obeys_cmp_spec::<(TyID, TyID)>(), //# C02,C07 sub_unify.loop4.aux2
                         vstd::std_specs::btree::key_obeys_cmp_spec::<String>(), //# C02,C07 sub_unify.loop4.aux3
                         fields_in_range(a_fields, n4 as int), fields_in_range(b_fields, n4 as int), //# C02,C07 sub_unify.loop4.aux4
@@ -1870,7 +1933,7 @@ impl TypeChecker {
 //@   endghost
 //@   loop 5 binder it
                     invariant
-                        self.inv2(), self.grows(old(self)), self.types@.len() >= n5, //# C02,C07 sub_unify.loop5.aux1
+                        self.inv2(), self.grows(old(self)), self.types@.len() >= n5, merges_only(ts1, self.types@), //# C02,C07 sub_unify.loop5.aux1
                         vstd::std_specs::btree::key_obeys_cmp_spec::<(TyID, TyID)>(), //# C02,C07 sub_unify.loop5.aux2
                         it.seq().len() <= xs5.len(), it.seq().len() <= ys5.len(), //# C07 sub_unify.loop5.aux3
                         forall|i: int| 0 <= i < it.seq().len() ==> *(#[trigger] it.seq()[i]).0 == xs5[i] && *it.seq()[i].1 == ys5[i], //# C07 sub_unify.loop5.aux4
@@ -1882,15 +1945,25 @@ impl TypeChecker {
 //@   endghost
 //@   loop 7 binder it
                     invariant
-                        self.inv2(), self.grows(old(self)), self.types@.len() >= n7, //# C02,C07 sub_unify.loop7.aux1
+                        self.inv2(), self.grows(old(self)), self.types@.len() >= n7, merges_only(ts1, self.types@), //# C02,C07 sub_unify.loop7.aux1
                         vstd::std_specs::btree::key_obeys_cmp_spec::<(TyID, TyID)>(), //# C02,C07 sub_unify.loop7.aux2
                         vstd::std_specs::btree::key_obeys_cmp_spec::<String>(), //# C02,C07 sub_unify.loop7.aux3
                         fields_in_range(a_variants, n7 as int), fields_in_range(b_variants, n7 as int), //# C02,C07 sub_unify.loop7.aux4
                         forall|j: int| 0 <= j < it.seq().len() ==> b_variants@.contains_pair(*(#[trigger] it.seq()[j]).0, *it.seq()[j].1), //# C07 sub_unify.loop7.aux5
 //@   endloop
 //@   ghost before
-//@| self.union(a, b);
-        proof { assert(self.types@.len() == self.types.len()); if rep0(self.types@, a.0 as int) != rep0(self.types@, b.0 as int) { lemma_sizes_fit(self.types@, a.0 as int, b.0 as int); } }
+//@| if a == b || seen.contains(&(a, b)) {
+        let ghost ts1 = self.types@;
+        proof {
+            lemma_merges_refl(ts1);
+            lemma_rep0_props(ts1, a.0 as int); lemma_rep0_props(ts1, b.0 as int);
+            assert(rep0(ts1, a0.0 as int) == a.0 as int); assert(rep0(ts1, b0.0 as int) == b.0 as int);
+        }
+//@   endghost
+//@   ghost before
+//@| self.check_constraints(span, ctx, a)?;
+        let ghost tsu = self.types@;
+        proof { lemma_merges_refl(tsu); }
 //@   endghost
 //@ end
 
@@ -1903,6 +1976,8 @@ impl TypeChecker {
         ensures final(self).inv2(), final(self).grows(old(self)), r is Ok ==> final(self).valid(r->Ok_0), //# C02,C07 unify.spec.aux2
             head_clash(ty_of(old(self).types@, a), ty_of(old(self).types@, b))
                 && rep0(old(self).types@, a.0 as int) != rep0(old(self).types@, b.0 as int) ==> r is Err, //# C03,C04,C05 unify.clashing_types_rejected
+            r is Ok ==> rep0(final(self).types@, a.0 as int) == rep0(final(self).types@, b.0 as int), //# C02,C03 unify.ok_means_the_two_ids_are_one_class
+            r is Ok ==> rep0(final(self).types@, r->Ok_0.0 as int) == rep0(final(self).types@, a.0 as int), //# C02 unify.returns_a_member_of_the_class
 //@   endspec
 //@   ghost entry
         proof { axiom_tyid_pair_key_order(); }
@@ -2089,12 +2164,15 @@ proof fn lemma_union_noop(ts0: Seq<TypeNode>, ts2: Seq<TypeNode>, a0: int, b0: i
         rep0(ts0, a0) == rep0(ts0, b0),
     ensures
         ids_closed(ts2), sizes_inv(ts0) ==> sizes_inv(ts2),
+        merges_from(ts0, ts2), rep0(ts2, a0) == rep0(ts2, b0),
         merged_into(ts0, ts2, rep0(ts0, a0), rep0(ts0, b0), rep0(ts0, a0)),
         forall|i: int| 0 <= i < ts0.len() ==> #[trigger] cons_of(ts2, i) == cons_of(ts0, i),
         forall|i: int| 0 <= i < ts0.len() ==> (#[trigger] ts2[i]).ty == ts0[i].ty,
 {
     lemma_same_graph(ts0, ts2);
     lemma_same_roots(ts0, ts2);
+    lemma_unchanged_from_same_graph(ts0, ts2);
+    assert(rep0(ts2, a0) == rep0(ts0, a0)); assert(rep0(ts2, b0) == rep0(ts0, b0));
     assert forall|i: int| 0 <= i < ts0.len() implies #[trigger] cons_of(ts2, i) == cons_of(ts0, i) by {
         lemma_rep0_props(ts0, i);
         assert(rep0(ts2, i) == rep0(ts0, i));
@@ -2147,6 +2225,7 @@ proof fn lemma_union_final(ts0: Seq<TypeNode>, ts2: Seq<TypeNode>, ts3: Seq<Type
             ts3[w as int].constraints@.dom().contains(c) || ts3[l as int].constraints@.dom().contains(c),
     ensures
         wf_forest(ts4), ids_closed(ts4), sizes_inv(ts4),
+        merges_from(ts0, ts4), rep0(ts4, a0) == rep0(ts4, b0),
         forall|i: int| 0 <= i < ts0.len() ==> (#[trigger] ts4[i]).ty == ts0[i].ty,
         merged_into(ts0, ts4, rep0(ts0, a0), rep0(ts0, b0), w as int),
         forall|c: Constraint| #[trigger] cons_of(ts4, a0).contains(c) <==> cons_of(ts0, a0).contains(c) || cons_of(ts0, b0).contains(c),
@@ -2172,6 +2251,11 @@ proof fn lemma_union_final(ts0: Seq<TypeNode>, ts2: Seq<TypeNode>, ts3: Seq<Type
         assert(rep0(ts4, i) == rep0(ts3, i));
         assert(rep0(ts2, i) == rep0(ts0, i));
     }
+    assert(merges_only(ts0, ts4)) by {
+        assert forall|i: int, j: int| 0 <= i < ts0.len() && 0 <= j < ts0.len() && rep0(ts0, i) == rep0(ts0, j) implies #[trigger] rep0(ts4, i) == #[trigger] rep0(ts4, j) by {}
+    }
+    lemma_merges_from(ts0, ts4);
+    assert(rep0(ts4, b0) == w as int);
     // constraints
     assert(rep0(ts4, a0) == w as int);
     assert(ts3[w as int].constraints == ts2[w as int].constraints);
@@ -2218,6 +2302,17 @@ proof fn lemma_push(ts: Seq<TypeNode>, ts2: Seq<TypeNode>)
         lemma_push_rep(ts, ts2, h, h2, i);
     }
     lemma_rep_props(ts2, the_h(ts2), ts.len() as int);
+}
+proof fn lemma_push_merges(ts: Seq<TypeNode>, ts2: Seq<TypeNode>)
+    requires ts2.len() == ts.len() + 1, forall|i: int| 0 <= i < ts.len() ==> rep0(ts2, i) == rep0(ts, i),
+    ensures merges_from(ts, ts2),
+{
+    assert(merges_only(ts, ts2)) by {
+        assert forall|i: int, j: int| 0 <= i < ts.len() && 0 <= j < ts.len() && rep0(ts, i) == rep0(ts, j) implies #[trigger] rep0(ts2, i) == #[trigger] rep0(ts2, j) by {
+            assert(rep0(ts2, i) == rep0(ts, i)); assert(rep0(ts2, j) == rep0(ts, j));
+        }
+    }
+    lemma_merges_from(ts, ts2);
 }
 /// the sum over a common prefix of two sequences is the same
 proof fn lemma_sum_prefix(a: Seq<TypeNode>, b: Seq<TypeNode>, n: int)
